@@ -8,6 +8,7 @@ import (
 	"errors"
 	"fmt"
 	"io"
+	"math"
 	"path/filepath"
 	"slices"
 	"strings"
@@ -26,6 +27,9 @@ const (
 
 	// maximum regions count which fits with header to one sector
 	maxUnencryptedRegions = (uint32(sectorSize) - 8) / 8
+
+	// sector numbers are 32-bit (sizeSectors), nothing can be addressed beyond this size
+	maxEncryptedISOSize = sizeBytes(math.MaxInt32) * sectorSize
 )
 
 var (
@@ -169,6 +173,14 @@ func (e *EncryptedISO) ReadAt(b []byte, off int64) (int, error) {
 func (e *EncryptedISO) readAt(b []byte, start sizeBytes) (int, error) {
 	if len(b) == 0 {
 		return 0, nil
+	}
+
+	// keep sector arithmetic below from wrapping on offsets far beyond any real image
+	if start >= maxEncryptedISOSize {
+		return 0, io.EOF
+	}
+	if sizeBytes(len(b)) > maxEncryptedISOSize-start {
+		b = b[:maxEncryptedISOSize-start]
 	}
 
 	end := start + sizeBytes(len(b))
